@@ -603,4 +603,79 @@ example : (run (init .tcp true true) [.start, .hookDone none, .data .client [1],
     [.hook .start, .hook (.message true [1]), .send .server [1], .close .server false, .close .client false, .hook .end_] := by
   decide
 
+/-! ### round-6 cross-audit: further non-vacuity witnesses (appended by the auditor, b-c28) -/
+
+/-- `relay_exact_per_direction` with every term non-empty: one message sent on, one edited message whose hook is
+    still pending (in flight), both towards the server; nothing towards the client -/
+example : let st := run (init .tcp true true) [.start, .hookDone none, .data .client [1], .hookDone (some [7]), .data .client [2]]
+    sentTo .server st.trace = [[7]] ∧ inFlightTo .server st = [[2]] ∧ recorded .server st.flowMessages = [[7], [2]] ∧
+    sentTo .client st.trace = [] ∧ recorded .client st.flowMessages = [] := by decide
+
+/-- hypotheses of `addon_edit_is_what_is_sent` / `kill_in_message_hook_still_relays` in a reachable state, with a
+    close already waiting in the pause queue behind the hook -/
+example : let st := run (init .udp true true) [.start, .hookDone none, .inject false [5], .closed .client true]
+    st.phase ≠ .idle ∧ st.pending = .msgHook .client ⟨false, [5]⟩ ∧ st.queue = [.closed .client] ∧
+    (step st (.hookDone (some [6]))).msgs = [⟨false, [6]⟩] := by
+  refine ⟨by decide, by decide, by decide, by decide⟩
+
+/-- hypotheses of `connect_failure_fires_error` / `failed_connect_ends_flow_with_error` in a reachable state, and
+    `exactly_one_end_or_error` on the ERROR path (UDP, connect refused, error hook completed): exactly one, and it is
+    the error hook -/
+example : let st := run (init .udp true false) [.start, .hookDone none]
+    st.phase ≠ .idle ∧ st.pending = .connect ∧ st.flow = true := by
+  refine ⟨by decide, by decide, by decide⟩
+
+example : let st := run (init .udp true false) [.start, .hookDone none, .data .client [1], .connectDone true, .hookDone none]
+    st.phase ≠ .idle ∧ st.pending = .none ∧ peersFinished st ∧ st.trace.countP isEndOrError = 1 ∧
+    Output.hook .error ∈ st.trace := by
+  refine ⟨by decide, by decide, ?_, by decide, by decide⟩
+  show (_ ∨ _)
+  exact Or.inl (by decide)
+
+/-- `exactly_one_end_or_error` for UDP on the normal path: one side closes, the end hook completes -/
+example : let st := run (init .udp true true) [.start, .hookDone none, .data .server [3], .hookDone none, .closed .server true, .hookDone none]
+    st.phase ≠ .idle ∧ st.pending = .none ∧ peersFinished st ∧ st.trace.countP isEndOrError = 1 ∧ st.live = false := by
+  refine ⟨by decide, by decide, ?_, by decide, by decide⟩
+  show (_ ∨ _)
+  exact Or.inr (by decide)
+
+/-- hypothesis and both disjuncts of `tcp_ends_only_when_both_directions_closed`: `done` after both directions closed
+    (connected), and `done` after a failed connect (never connected, the server side was never readable) -/
+example : let st := run (init .tcp true true) [.start, .hookDone none, .closed .server false, .closed .client false]
+    st.phase = .done ∧ st.connected = true ∧ st.client.canRead = false ∧ st.server.canRead = false := by decide
+example : let st := run (init .tcp false false) [.start, .connectDone true]
+    st.phase = .done ∧ st.connected = false := by decide
+
+/-- `nothing_relayed_after_end` with a non-empty tail: after the error hook only the close of the client follows,
+    although client data, an injection and a close were delivered meanwhile and afterwards -/
+example : (run (init .tcp true false) [.start, .hookDone none, .data .client [1], .connectDone true, .inject true [2],
+      .hookDone none, .data .client [3], .closed .client false]).trace =
+    [.hook .start, .openServer] ++ .hook .error :: [.close .client false] := by decide
+
+/-- `messages_handled_in_arrival_order` with a non-empty pause queue: one hook fired, two data events and a close waiting -/
+example : let ins : List Input := [.start, .hookDone none, .data .server [1], .data .client [2], .closed .server false, .inject false [3]]
+    let st := run (init .tcp true true) ins
+    st.phase = .relay ∧ hookMsgs st.trace = [⟨false, [1]⟩] ∧ dataOf st.queue = [⟨true, [2]⟩, ⟨false, [3]⟩] ∧
+    accepted false ins = [⟨false, [1]⟩, ⟨true, [2]⟩, ⟨false, [3]⟩] := by decide
+
+/-- `ignore_mode_relays_in_arrival_order` while the connect is still pending (phase `start`, everything queued) -/
+example : let ins : List Input := [.start, .data .client [1], .inject true [2]]
+    let st := run (init .udp false false) ins
+    st.phase = .start ∧ sentMsgs st.trace = [] ∧ dataOf st.queue = accepted false ins := by decide
+
+/-- `half_close_propagated_while_other_direction_flows`, conclusion on a concrete run without a flow (`ignore=True`):
+    the server half-closes, the client's next data is still sent to the server -/
+example : (run (init .tcp false true) [.start, .closed .server false, .data .client [4], .hookDone none]).trace =
+    [.close .client true, .send .server [4]] := by decide
+
+/-- the dead-socket theorems' hypotheses: a run from `initX` with a dead client socket; the half-close towards the
+    client leaves it CLOSED, at most one end hook, nothing after it -/
+example : let st := run (initX .tcp true true true false) [.start, .hookDone none, .closed .server false, .data .client [1], .hookDone none]
+    st.client = Conn.shut ∧ st.trace = [.hook .start, .close .client true, .hook (.message true [1]), .send .server [1]] ∧
+    st.trace.countP isEndOrError = 0 := by decide
+
+/-- `open_connection_reply_truthy_iff_failed` on the boundary values: bare exception (empty `str(e)`), a message, success -/
+example : openConnectionReply (.oserror []) = some cancelledMsg ∧ truthy (openConnectionReply (.oserror [])) = true ∧
+    openConnectionReply (.oserror [0x78]) = some [0x78] ∧ truthy (openConnectionReply .ok) = false := by decide
+
 end MitmVerif.Props.C29
